@@ -47,6 +47,10 @@ def check_case(case, ev=None):
     enabled = mode != "off"
     extra = {} if enabled else {"loop": "LOOPVAR"}
     ref = trun.run_ref(prog, enable_loop=enabled, extra_ctx=extra)
+    if ref[0] == "reject":
+        if ev is not None:
+            ev.rejected += 1
+        return
     got = trun.run_mako(src, enable_loop=(mode == "on"), extra_ctx=extra)
     trun.compare(case, ref, got, src)
     if ev is not None:
@@ -64,7 +68,8 @@ def shard(task):
     core.setup_repo()
     ev = core.Evidence()
     fails, known = core.hyp_search(strategy(), lambda c: check_case(c, ev), ev, seed, n,
-                                   classify=classify, known=core.load_known(PID))
+                                   classify=classify, known=core.load_known(PID), shrink=False)
+    fails = [trun.minimise(f, check_case) for f in fails]
     return ev, fails + list(known.values())
 
 
